@@ -30,6 +30,25 @@ GUARD = 'SVGPATHTOOLS_VERIF'
 # per-shard context merged into every recorded violation case (e.g. {'prov': 'reversed_twice'}: how the library
 # segments of mc.alphabets came into being); set by the worker from the shard descriptor, restored on replay
 CONTEXT = {}
+CONTEXT_KEYS = ('prov', 'pprov', 'module')
+
+
+class module_settings(object):
+    """context manager: documented module-level settings of svgpathtools.path (e.g. {'USE_SCIPY_QUAD': False}) set for
+    the duration of a shard / a replay, restored afterwards (shard descriptors carry them under the key 'module')"""
+    def __init__(self, settings):
+        self.settings = settings or {}
+
+    def __enter__(self):
+        import svgpathtools.path as sp
+        self.old = {k: getattr(sp, k) for k in self.settings}
+        for k, v in self.settings.items():
+            setattr(sp, k, v)
+
+    def __exit__(self, *a):
+        import svgpathtools.path as sp
+        for k, v in self.old.items():
+            setattr(sp, k, v)
 
 
 def bind_repo():
@@ -150,7 +169,7 @@ class Acc(object):
         sig = dict(sig)
         if CONTEXT and isinstance(case, dict):
             case = dict(case, **CONTEXT)
-            sig = dict(sig, **{k: v for k, v in CONTEXT.items() if k in ('prov', 'pprov')})
+            sig = dict(sig, **{k: (v if k != 'module' else canon(v)) for k, v in CONTEXT.items() if k in CONTEXT_KEYS})
         key = canon({'clause': clause, 'sig': sig})
         hk = hashlib.blake2b(key.encode(), digest_size=6).hexdigest()
         self.viol_counts[hk] += 1
@@ -244,14 +263,15 @@ def _worker(args):
         import importlib
         mod = importlib.import_module(modname)
         CONTEXT.clear()
-        for ck in ('prov', 'pprov'):
+        for ck in CONTEXT_KEYS:
             if isinstance(desc, dict) and desc.get(ck):
                 CONTEXT[ck] = desc[ck]
         try:
-            acc = mod.run_shard(desc, tier, seed)
-            for ck in ('prov', 'pprov'):
+            with module_settings(CONTEXT.get('module')):
+                acc = mod.run_shard(desc, tier, seed)
+            for ck in CONTEXT_KEYS:
                 if CONTEXT.get(ck):
-                    acc.seen('%s:%s' % (ck, CONTEXT[ck]))
+                    acc.seen('%s:%s' % (ck, CONTEXT[ck] if ck != 'module' else canon(CONTEXT[ck])))
         finally:
             CONTEXT.clear()
         return idx, acc, None
@@ -309,13 +329,14 @@ def finish(mod, acc, tier, seed, wall, nshards):
         try:
             rc = v['case']
             CONTEXT.clear()
-            if isinstance(rc, dict) and (rc.get('prov') or rc.get('pprov')):
-                for ck in ('prov', 'pprov'):
+            if isinstance(rc, dict) and any(rc.get(ck) for ck in CONTEXT_KEYS):
+                for ck in CONTEXT_KEYS:
                     if rc.get(ck):
                         CONTEXT[ck] = rc[ck]
-                rc = {k: x for k, x in rc.items() if k not in ('prov', 'pprov')}
+                rc = {k: x for k, x in rc.items() if k not in CONTEXT_KEYS}
             try:
-                rv = mod.replay(rc)
+                with module_settings(CONTEXT.get('module')):
+                    rv = mod.replay(rc)
             finally:
                 CONTEXT.clear()
             confirmed = any(x['clause'] == v['clause'] for x in rv)
